@@ -57,6 +57,10 @@ def run(ctx):
     fold(ctx, g)
     same_relation(ctx, g)
     ranges(ctx, g)
+    # morphism(other, img0) answers None for a base image that is not a chamber only because other.m(k, k + 1, img0) is None there;
+    # fundamental_group's dummy ridge (0, 0, 0) relies on the same for covers
+    from . import c02
+    c02.none_outside_ranges(ctx, g)
 
 
 def morphism(ctx, g):
